@@ -18,11 +18,11 @@ theorem ahed_rt (h : ArchiveHeader) (h1 : h.major < 256) (h2 : h.minor < 256) (h
 theorem ahed_stable (bs : Bytes) (h : ArchiveHeader) (hd : decAHED bs = .ok h) :
     decAHED (encAHED h) = .ok h := decAHED_stable bs h hd
 
-theorem fhed_rt (h : EntryHeader) (hv : h.major = h.minor) (h2 : h.minor < 256)
+theorem fhed_rt (h : EntryHeader) (h1 : h.major < 256) (h2 : h.minor < 256)
     (hk : validKind h.kind = true) (hc : validCompression h.compression = true)
     (he : validEncryption h.encryption = true) (hm : validCipherMode h.cipherMode = true)
     (hu : validUtf8 h.name = true) (hs : sanitize h.name = h.name) :
-    decFHED (encFHED h) = .ok h := decFHED_encFHED h hv h2 hk hc he hm hu hs
+    decFHED (encFHED h) = .ok h := decFHED_encFHED h h1 h2 hk hc he hm hu hs
 
 theorem shed_rt (h : SolidHeader) (h1 : h.major < 256) (h2 : h.minor < 256)
     (hc : validCompression h.compression = true) (he : validEncryption h.encryption = true)
